@@ -7,7 +7,7 @@ samplers against the exact CDFs (alarm p < 1e-9)."""
 import json, math, random
 from harness.common import fhex
 from harness import modelgen as G, replay as R
-from harness.props import c06
+from harness.props import c06, c20
 PID = "C10"; COQ_TARGET = "C10"
 RULE = ("replay: random bounded networks with delayed reactants/products, three delay families, delays from 1e-3*dt to 3x the horizon, plain/safe; sampler replay: 3 families x parameters; "
         "canonical family A->delayed B with fixed delays incl. 0 and beyond the horizon; non-trivial = a delayed part is present")
@@ -36,6 +36,13 @@ def gen_cases(seed, tier):
         c = {"spec": spec, "kind": kind, "safe": False, "times": T, "seed": rng.randint(1, 2**31), "family": "canonical", "delay": dl, "a0": a0}
         if kind in ("vssa", "dvssa"): c["volume"] = {"type": "base", "V0": 1.0}
         cases.append(c)
+    # queue histories with a partition at cell division (the ring buffer read through the two daughter queues): what is pending is
+    # delivered once, at its own time, by exactly one of the daughters (seeded change S5_C10: clear_copy reset the daughters' read position)
+    for _ in range(40 if tier == "quick" else 400):
+        for _try in range(50):
+            c = c20.gen_case(rng, 40)
+            if any(op[0] == "B" for op in c["ops"]) and sum(1 for op in c["ops"] if op[0] == "A") >= 3: break
+        c["family"] = "queue_history"; cases.append(c)
     # sampler replays
     for _ in range(60 if tier == "quick" else 600):
         fam = rng.choice(["gauss", "gamma"])
@@ -44,6 +51,7 @@ def gen_cases(seed, tier):
     return cases
 
 def impl_case(case):
+    if case["family"] == "queue_history": return c20.impl_case(case)
     if case["family"] != "sampler": return R.impl_replay(case)
     import numpy as np
     from bioscrape.types import Model
@@ -59,11 +67,13 @@ def impl_case(case):
     return {"vals": [fhex(v) for v in vals], "pos": pos, "raws": raws, "pidx": [int(v) for v in G._state_of(d)[1:3]], "pv": G.flist(pv)}
 
 def driver_line(case, r):
+    if case["family"] == "queue_history": return c20.driver_line(case, r)
     if case["family"] != "sampler": return R.driver_line(case, r)
     if not r or r.get("pos", -1) < 0: return None
     return " ".join(["delaydraw", case["dist"], str(case["draws"]), fhex(case["params"][0]), fhex(case["params"][1]), str(len(r["raws"]))] + r["raws"])
 
 def compare(case, r, out):
+    if case["family"] == "queue_history": return getattr(c20, "compare", lambda c_, r_, m_: None if (isinstance(r_, dict) and r_.get("line") == m_) else "queue history: model %r vs implementation %r" % (m_, r_))(case, r, out)
     if case["family"] != "sampler": return R.compare(case, r, out)
     if not r or "vals" not in r: return "implementation failed: %s" % json.dumps(r)[:300]
     toks = out.split()
@@ -75,6 +85,8 @@ def compare(case, r, out):
     return None
 
 def oracle(case, r):
+    if case["family"] == "queue_history":
+        m = c20.oracle(case, r); return ("queue history: " + m) if m else None
     if case["family"] == "sampler":
         if not r or "vals" not in r: return "implementation failed: %s" % json.dumps(r)[:300]
         vals = [float.fromhex(v) for v in r["vals"]]
